@@ -201,6 +201,9 @@ pub struct Case {
     /// wants one attached from the beginning starts with an Attach at creation time
     pub wls: Vec<WlSpec>,
     pub ops: Vec<COp>,
+    /// open edition: NFT metadata mode (true = OnChainMetadata with an sg721-metadata-onchain collection)
+    #[serde(default)]
+    pub onchain: bool,
 }
 
 // ---------- Merkle trees as the two Merkle whitelists verify them ----------
@@ -403,6 +406,10 @@ trait World {
     fn remove_discount(&mut self, who: &str) -> Option<StepOut>;
     fn update_pal(&mut self, who: &str, limit: u32) -> StepOut;
     fn sudo_min_price(&mut self, price: u128);
+    /// tokens of the collection whose stored metadata is not what the edition was created with
+    fn metadata_violations(&self) -> Vec<String> {
+        vec![]
+    }
 }
 
 fn instantiate_wl(app: &mut App, code_id: u64, msg: &Value, fee: u128) -> Result<Addr, String> {
@@ -535,6 +542,9 @@ impl World for VWorld {
 // ----- open edition -----
 struct OWorld(OeWorld);
 impl World for OWorld {
+    fn metadata_violations(&self) -> Vec<String> {
+        self.0.metadata_violations()
+    }
     fn app(&self) -> &App {
         &self.0.app
     }
@@ -634,6 +644,7 @@ fn new_world(c: &Case) -> Result<Box<dyn World>, String> {
         cfg.pal = c.pal;
         cfg.price = c.price;
         cfg.start_in_secs = c.start_in;
+        cfg.onchain = c.onchain;
         Ok(Box::new(OWorld(OeWorld::new(cfg)?)))
     } else {
         let mut cfg = SaleCfg::basic(c.fam.variant);
@@ -1171,6 +1182,9 @@ pub fn run_case(c: &Case) -> CaseResult {
             break;
         }
     }
+    for what in w.metadata_violations() {
+        res.violations.push(("C04:oe-token-metadata".into(), what, c.ops.len()));
+    }
     res.coq = Some(w.finish(&init, &init_bal, &steps, &probes));
     res
 }
@@ -1293,7 +1307,7 @@ fn block(fam: Fam, spec: Option<&WlSpec>, now: T, airdrop: bool) -> Vec<COp> {
 }
 
 fn base_case(label: String, fam: Fam, wls: Vec<WlSpec>, ops: Vec<COp>) -> Case {
-    Case { label, fam, num_tokens: if fam.oe { 40 } else { 24 }, pal: 3, price: PUB, start_in: START, end_in: if fam.oe { Some(END) } else { None }, wls, ops }
+    Case { label, fam, num_tokens: if fam.oe { 40 } else { 24 }, pal: 3, price: PUB, start_in: START, end_in: if fam.oe { Some(END) } else { None }, wls, ops, onchain: false }
 }
 
 /// one history per boundary instant of the shape: the same block at t-1ns, t, t+1ns
@@ -1837,6 +1851,15 @@ pub fn run(a: &Args) {
                 v.push(random_case(&mut rng, fam, n, &lits));
             }
             v.push(malformed_case(&mut rng, fam));
+        }
+        // NFT metadata mode of the open editions: every other open-edition case runs with on-chain
+        // metadata (sg721-metadata-onchain collection); the gates must not notice
+        let mut k = 0usize;
+        for c in v.iter_mut() {
+            if c.fam.oe {
+                k += 1;
+                c.onchain = k % 2 == 0;
+            }
         }
         v
     };
